@@ -191,16 +191,37 @@ def consistent(st, assume):
     return True
 
 
+def arc_executed(f):
+    """the path decided that a centre offset of the arc (I / J word, or the offsets computed from R) is not zero: the
+    firmware executes such an arc, so the tracked position has to follow it"""
+    for k, allowed in f.st.dom.items():
+        if k[0] != 'sgn' or 0 in allowed:
+            continue
+        try:
+            terms = k[1]
+            if len(terms) != 1 or len(terms[0][0]) != 1:
+                continue
+            name = terms[0][0][0][0]
+        except (TypeError, IndexError):
+            continue
+        if name in ('p:I', 'p:J') or ('computeArcCenterOffsets' in name and '.ret[' in name):
+            return True
+    return False
+
+
 def exact_tracking(f, gcode):
     """[(function, construct, message)] when, after a G0/G1 that carries a numeric word for an axis, the tracked native
     position is not the one a firmware reaches: logical*unit + offset + homeOffset in absolute positioning,
     current + logical*unit in relative positioning (whatever the region tests answered)"""
     out = []
-    if gcode not in ('G0', 'G1'):
+    arc = gcode in ('G2', 'G3')
+    if gcode not in ('G0', 'G1', 'G2', 'G3'):
         return out
+    if arc and not arc_executed(f):
+        return out          # both centre offsets zero: the firmware ignores the command as well
     from .poly import Poly
     where = 'ExcludeRegionState.isAnyPointExcluded' if ('ExcludeRegionState', 'processLinearMoves') in f.calls \
-        else 'GcodeHandlers._handle_G0'
+        else ('GcodeHandlers._handle_G2' if arc else 'GcodeHandlers._handle_G0')
     # the feed rate register: F word times the feed-rate unit factor; untouched without a (valued) F word
     fkey = ('param', CMDKEY, 'F')
     for status, want in ((frozenset(['V']), Poly.sym('p:F') * Poly.sym(S_OID + '.feedRateUnitMultiplier')),
@@ -219,6 +240,8 @@ def exact_tracking(f, gcode):
         key = ('param', CMDKEY, letter)
         w = Poly.sym('p:%s' % letter) * Poly.sym(aoid + '.unitMultiplier')
         for mode in (True, False):
+            if arc and not mode and letter != 'E':
+                continue        # arcs in relative positioning: C08.R5 (recorded finding)
             want = w + (Poly.sym(aoid + '.offset') + Poly.sym(aoid + '.homeOffset') if mode else Poly.sym(aoid + '.current'))
             assume = {key: frozenset(['V']), ('fld', aoid, 'absoluteMode'): frozenset([mode])}
             if not consistent(f.st, assume):
@@ -236,7 +259,7 @@ def tracking_violations(f, gcode, I):
     """[(function, construct, message)] when the tracked X/Y/Z does not follow the move on this path"""
     out = []
     if ('ExcludeRegionState', 'processLinearMoves') not in f.calls and gcode not in ('G0', 'G1'):
-        return out
+        return exact_tracking(f, gcode)
     for axis, letter in (('X_AXIS', 'X'), ('Y_AXIS', 'Y'), ('Z_AXIS', 'Z')):
         aoid = '%s.position.%s' % (S_OID, axis)
         assume = {('fld', aoid, 'absoluteMode'): frozenset([True])} if gcode in ('G2', 'G3') else None
